@@ -17,6 +17,8 @@ MEMO_FLAGS = {'simp': None, 'is_simp': None,
 API_DEFAULT_OMITTED = {('ia32_arch', 'x86_mnemo_metaclass', 'asm'), ('ia32_arch', 'x86_mnemo_metaclass', 'dis'),
                        ('emul_helper', None, 'get_instr_expr')}
 
+API_CLASSES = {('eval_abs', 'eval_abs')}
+
 
 def all_functions(mod):
     out = []
@@ -106,7 +108,8 @@ def run(ctx, report):
                 if len(call.args) > idx or any(isinstance(a, ast.Starred) for a in call.args):
                     continue
                 omitted.append((m2, call))
-            api = (m.name, cname, fn.name) in API_DEFAULT_OMITTED
+            # entry points a client calls with the default omitted: the listed ones and every method of the evaluator class
+            api = (m.name, cname, fn.name) in API_DEFAULT_OMITTED or (m.name, cname) in API_CLASSES
             if not mutated:
                 R2.ok(inst, sample='%s: default never mutated' % inst)
             elif not omitted and not api:
@@ -244,17 +247,57 @@ def run(ctx, report):
     else:
         R5.violation('lex:readtab', 'lex:readtab', 'ply.lex.lex can read a cached lextab without optimize', where(lexm, lf))
 
+    # ---------------------------------------------------------------- D6 process-global interpreter state is restored on every exit
+    R6 = report.rule('C12.D6', 'sys.path / sys.modules changed inside a function are restored on every exit (finally)', floor=1)
+    n_glob = 0
+    for m in [ctx.mod('yacc'), ctx.mod('lex')] + mods:
+        for cname, fn in all_functions(m):
+            sets = [n for n in walk_no_nested(fn) if isinstance(n, ast.Assign) and any(u(t) in ('sys.path', 'sys.modules', 'sys.argv') for t in n.targets)]
+            if not sets:
+                continue
+            saves = dict((n.targets[0].id, u(n.value)) for n in walk_no_nested(fn) if isinstance(n, ast.Assign) and len(n.targets) == 1
+                         and isinstance(n.targets[0], ast.Name) and u(n.value) in ('sys.path', 'sys.modules', 'sys.argv'))
+            for st in sets:
+                what = [u(t) for t in st.targets if u(t).startswith('sys.')][0]
+                if isinstance(st.value, ast.Name) and saves.get(st.value.id) == what:
+                    continue        # this is the restoring assignment
+                n_glob += 1
+                inst = '%s::%s%s:%s' % (m.name, (cname + '.') if cname else '', fn.name, norm(st))
+                # a restoring assignment inside the finalbody of a Try that follows in the same block
+                blk = parent(st)
+                body = None
+                for fld in ('body', 'orelse', 'finalbody'):
+                    lst = getattr(blk, fld, None)
+                    if isinstance(lst, list) and st in lst:
+                        body = lst
+                restored = False
+                if body is not None:
+                    for nxt in body[body.index(st) + 1:]:
+                        if isinstance(nxt, ast.Try) and any(isinstance(x, ast.Assign) and any(u(t) == what for t in x.targets) and isinstance(x.value, ast.Name)
+                                                              and saves.get(x.value.id) == what for fb in nxt.finalbody for x in ast.walk(fb)):
+                            restored = True
+                        break       # only the statement that immediately follows may be the protecting try
+                if restored:
+                    R6.ok(inst, sample='%s: %s replaced, restored in a finally' % (inst, what))
+                else:
+                    R6.violation(inst, 'global-state:%s:%s:%s' % (m.name, fn.name, what), '%s replaces %s (%s) and restores it only on the normal path: an exception in between '
+                                 '(ImportError when no parser table exists yet) leaves the interpreter with the replaced value for every later import'
+                                 % (fn.name, what, norm(st)), where(m, st), witness='TMPDIR=<empty dir>: import miasmx.arch.ia32_arch; import json -> ModuleNotFoundError')
+    if n_glob == 0:
+        R6.ok('no-global-state-change', nontrivial=False)
+
 
 MUTANTS = [
+    ('yacc-syspath-no-finally', 'ply/yacc.py', "            finally:\n                # (the import fails when no table has been written yet)\n                sys.path = old_path\n", "            finally:\n                pass\n            sys.path = old_path\n", 'C12.D6'),
+    ('eval-cache-default-dict', 'miasmx/expression/expression_eval_abstract.py', "    def eval_expr_no_cache(self, e, eval_cache = None):\n        if eval_cache is None:\n            # (a default dictionary would be shared by every machine)\n            eval_cache = {}\n", "    def eval_expr_no_cache(self, e, eval_cache = {}):\n", 'C12.D2'),
     ('yacc-optimize', 'miasmx/core/parse_ad.py', 'parser_intel = yacc.yacc(debug=0,', 'parser_intel = yacc.yacc(debug=0, optimize=1,', 'C12.D5'),
     ('get_afs-nocopy', 'miasmx/arch/ia32_arch.py', '            a = dict(db_afs[m])\n', '            a = db_afs[m]\n', 'C12.D4'),
     ('yacc-guard', 'ply/yacc.py', 'if optimize or (read_signature == signature):', 'if optimize or read_signature:', 'C12.D5'),
     ('sig-no-docs', 'ply/yacc.py', "            for f in self.pfuncs:\n                if f[3]:\n                    sig.update(f[3].encode('latin-1'))\n", '', 'C12.D5'),
-    ('simp-mutate-arg', 'miasmx/expression/expression_helper.py', '            e = ExprMem(e.arg.arg, size = e.stop)\n            return e\n',
+    ('simp-mutate-arg', 'miasmx/expression/expression_helper.py', '            e = ExprMem(e.arg.arg, size = e.stop, segm = e.arg.segm)\n            return e\n',
      '            e.arg.size = e.stop\n            return e.arg\n', 'C12.D3'),
     ('lex-optimize', 'miasmx/arch/ia32_att.py', 'lexer_att = lex.lex()', 'lexer_att = lex.lex(optimize=1, lextab="att_lextab")', 'C12.D5'),
     ('evalid-flag', 'miasmx/expression/expression_eval_abstract.py', '        if not e in self.pool:\n            return e\n        return self.pool[e]\n',
      '        if not e in self.pool:\n            e.is_term = True\n            return e\n        return self.pool[e]\n', 'C12.D1'),
     ('merge-nocopy', 'miasmx/expression/expression_helper.py', '            sources_int[a[1]] = (ExprInt(a[0].arg.__class__(a[0].arg)),\n', '            sources_int[a[1]] = (a[0],\n', 'C12.D3'),
-    ('cond-default-cache', 'miasmx/expression/expression_eval_abstract.py', '        cond = self.eval_expr(e.cond, eval_cache)\n', '        cond = self.eval_ExprOp(e.cond) if isinstance(e.cond, ExprOp) else self.eval_expr(e.cond, eval_cache)\n', 'C12.D2'),
 ]
